@@ -12,27 +12,29 @@ open Gotree
 def expectedSentinels : List (String × String) :=
   [("NIL_LENGTH", "-1"), ("NIL_SUPPORT", "-1"), ("NIL_PVALUE", "-1"), ("NIL_ID", "-1")]
 
+/- operands are printed by the extractor with the receiver as `recv`, the i-th parameter as `arg<i>` and
+   every other local variable as `<its type>`: renaming a variable changes no row -/
 def expectedGuards : List (String × String × String × String) := [
   -- `T.rooted`: the root has exactly two neighbours (hypothesis of `merge`)
-  ("Rooted", "t.root.Nneigh()", "==", "2"),
+  ("Rooted", "recv.root.Nneigh()", "==", "2"),
   -- a node with one neighbour is a tip: `t.kids.length == 1` for a root (`graft`, `insertOne`, `nodesNamed`), `isLeaf` below
-  ("Tip", "len(n.neigh)", "==", "1"),
-  -- `merge`: "tip index not initialized" exactly when an index is empty (flags i1, i2)
-  ("Merge", "len(t.tipIndex)", "==", "0"),
-  ("Merge", "len(t2.tipIndex)", "==", "0"),
+  ("Tip", "len(recv.neigh)", "==", "1"),
+  -- `merge`: "tip index not initialized" exactly when an index is empty (flags i2, i1)
+  ("Merge", "len(arg0.tipIndex)", "==", "0"),
+  ("Merge", "len(recv.tipIndex)", "==", "0"),
   -- `insertGroups`: a group without new names inserts nothing (insertNews on [])
-  ("InsertIdenticalTips", "len(newtips)", ">", "0"),
-  -- `zeroEdge`: every length set by InsertIdenticalTip is 0
+  ("InsertIdenticalTips", "len(<[]string>)", ">", "0"),
+  -- `insKids`: `e.len == 0 && !lone` — the tip branch has length exactly 0 and the parent more than one neighbour
+  ("InsertIdenticalTip", "<*Edge>.Length()", "==", "0"),
+  ("InsertIdenticalTip", "<*Node>.Nneigh()", ">", "1"),
+  -- `zeroEdge`: every constant length set by InsertIdenticalTip is 0
   ("InsertIdenticalTip", "SetLength", "arg", "0"),
-  -- `insKids`: `e.len == 0 && !lone` — length exactly 0 and a parent with more than one neighbour
-  ("InsertIdenticalTip", "parentedge.Length()", "==", "0"),
-  ("InsertIdenticalTip", "parentnode.Nneigh()", ">", "1"),
-  -- `fuseLenGo`: `max 0 child + max 0 parent` as soon as one of the two is not NIL
+  -- `fuseLenGo`: `max 0 child + max 0 parent` as soon as one of the two (child branch, removed branch) is not NIL
+  ("removeSingleNodesRecur", "<*Node>.br[<int>].Length()", "!=", "-1"),
+  ("removeSingleNodesRecur", "<float64>", "!=", "-1"),
   ("removeSingleNodesRecur", "Max", "arg", "0"),
-  ("removeSingleNodesRecur", "child.br[idx].Length()", "!=", "-1"),
   -- `rsKids`: a node with exactly one child of its own (two neighbours) is removed
-  ("removeSingleNodesRecur", "len(current.Neigh())", "==", "2"),
-  ("removeSingleNodesRecur", "length", "!=", "-1")
+  ("removeSingleNodesRecur", "len(arg0.Neigh())", "==", "2")
 ]
 
 /-- what the model itself uses, as the same strings: ties `expectedSentinels` to `NIL`, `EdgeD.blank`, `zeroEdge` -/
